@@ -212,3 +212,96 @@ Proof.
   - now rewrite N.eqb_refl.
   - rewrite app_length. pose proof (join_len (x :: ms)). simpl in *. lia.
 Qed.
+
+(* ---- what the sink writes for the pairs it is handed (json_sink_line) --------------------------- *)
+Lemma opt_pairs_esc esc named : opt_pairs (option_map (esc_pairs esc) named) = esc_pairs esc (opt_pairs named).
+Proof. destruct named; reflexivity. Qed.
+
+(* the members of the sink line: the fixed ones, then the handed pairs after _append_escaping_newlines *)
+Definition sink_members_of (esc : bool) (h : hdr) (t : str) (named : option (list (str * str))) : list (str * str) :=
+  fixed_members h t ++ esc_pairs esc (opt_pairs named).
+
+Theorem json_sink_line_shape esc h t named :
+  json_sink_line esc h t named = LB :: join [COMMA] (map mtext (sink_members_of esc h t named)) ++ [RB; NL].
+Proof.
+  unfold json_sink_line, sink_members_of. rewrite json_line_shape. unfold members_of. now rewrite opt_pairs_esc.
+Qed.
+
+Lemma esc_nl_no_nl s : no_nl (esc_nl s) = true.
+Proof.
+  induction s as [|c s IH]; [reflexivity|].
+  change (esc_nl (c :: s)) with ((if N.eqb c NL then [BSL; 110%N] else [c]) ++ esc_nl s).
+  rewrite no_nl_app, IH, andb_true_r. destruct (N.eqb c NL) eqn:E; [reflexivity|].
+  simpl. now rewrite E.
+Qed.
+
+Lemma esc_pairs_no_nl l : pairs_ok no_nl (esc_pairs true l) = true.
+Proof.
+  induction l as [|[k v] l IH]; [reflexivity|].
+  simpl. now rewrite !esc_nl_no_nl, IH.
+Qed.
+
+(* esc_nl is the identity on a text without a newline, and otherwise exactly: every newline becomes
+   the two bytes '\' 'n', every other byte is kept *)
+Lemma esc_nl_id s : no_nl s = true -> esc_nl s = s.
+Proof.
+  induction s as [|c s IH]; intros H; [reflexivity|].
+  simpl in H. apply andb_true_iff in H as [Hc Hs]. apply negb_true_iff in Hc.
+  change (esc_nl (c :: s)) with ((if N.eqb c NL then [BSL; 110%N] else [c]) ++ esc_nl s).
+  now rewrite Hc, (IH Hs).
+Qed.
+
+Lemma esc_nl_app a b : esc_nl (a ++ b) = esc_nl a ++ esc_nl b.
+Proof. unfold esc_nl. now rewrite flat_map_app. Qed.
+
+Lemma esc_nl_cons_nl s : esc_nl (NL :: s) = BSL :: 110%N :: esc_nl s.
+Proof. reflexivity. Qed.
+
+(* the repaired sink (esc = true): exactly one '\n', the last byte, for EVERY list of pairs *)
+Theorem json_sink_one_line h t named :
+  hdr_ok no_nl h = true ->
+  exists body, json_sink_line true h t named = body ++ [NL] /\ no_nl body = true.
+Proof.
+  intros Hh. unfold json_sink_line. apply json_one_line; [exact Hh|].
+  rewrite opt_pairs_esc. apply esc_pairs_no_nl.
+Qed.
+
+Lemma plain_no_nl s : plain_str s = true -> no_nl s = true.
+Proof.
+  induction s as [|c s IH]; intros H; [reflexivity|].
+  simpl in H. apply andb_true_iff in H as [Hc Hs]. simpl. rewrite (IH Hs), andb_true_r.
+  apply negb_true_iff, N.eqb_neq. intros ->. discriminate.
+Qed.
+
+Lemma esc_pairs_plain esc l : pairs_ok plain_str l = true -> esc_pairs esc l = l.
+Proof.
+  destruct esc.
+  - induction l as [|[k v] l IH]; intros H; [reflexivity|].
+    simpl in H. apply andb_true_iff in H as [Hkv Hl]. apply andb_true_iff in Hkv as [Hk Hv].
+    simpl. now rewrite (esc_nl_id k (plain_no_nl k Hk)), (esc_nl_id v (plain_no_nl v Hv)), (IH Hl).
+  - intros _. induction l as [|[k v] l IH]; [reflexivity|]. simpl. now rewrite IH.
+Qed.
+
+(* both variants: when no byte of any field needs escaping the sink line is the JSON object with
+   the fixed members and the handed pairs *)
+Theorem json_sink_parses esc h t named :
+  hdr_ok plain_str h = true -> plain_str (no_newlines t) = true ->
+  pairs_ok plain_str (opt_pairs named) = true ->
+  json_parse_line (json_sink_line esc h t named) = Some (members_of h t named).
+Proof.
+  intros Hh Ht Hp. unfold json_sink_line.
+  assert (E : option_map (esc_pairs esc) named = named).
+  { destruct named as [l|]; [|reflexivity]. simpl in *. now rewrite (esc_pairs_plain esc l Hp). }
+  rewrite E. now apply json_parses.
+Qed.
+
+(* the pinned sink (esc = false): one line when no key or value holds a newline *)
+Theorem json_one_line_pinned h t named :
+  hdr_ok no_nl h = true -> pairs_ok no_nl (opt_pairs named) = true ->
+  exists body, json_sink_line false h t named = body ++ [NL] /\ no_nl body = true.
+Proof.
+  intros Hh Hp. unfold json_sink_line. apply json_one_line; [exact Hh|].
+  rewrite opt_pairs_esc. destruct named as [l|]; [|reflexivity]. simpl in *.
+  replace (esc_pairs false l) with l; [exact Hp|].
+  clear Hp. induction l as [|[k v] l IH]; [reflexivity|]. simpl. now rewrite <- IH.
+Qed.
